@@ -958,6 +958,10 @@ func TestC15(t *testing.T) {
 		c15InProcessSupervised(ev, driver, vlib.Scale(6000, 100000))
 	}
 	c15Parsers(ev, vlib.Scale(3000, 100000))
+	for _, driver := range vlib.Drivers() {
+		driver := driver
+		parallelCases(vlib.Scale(40, 800), 4, func(i int) { c15StatusWhileDependenciesFail(ev, driver, i) })
+	}
 	bin, err := vlib.BuildVipnode("plain")
 	if err != nil {
 		fmt.Println("HARNESS-ERROR", err)
